@@ -52,8 +52,15 @@ static void normals()
   }
   NormalAndCurvatureEstimation<P> est(k);
   NormalSet<P> nrm(k);
-  std::vector<double> curv(k);
-  est.compute(pts, nrm, curv);
+  std::vector<double> curv(k), rel(k);
+  const int overload = (int)vf_param("overload");     // 0: normals + curvatures, 1: normals only, 2: + reliabilities
+  if (overload == 0) {
+    est.compute(pts, nrm, curv);
+  } else if (overload == 1) {
+    est.compute(pts, nrm);
+  } else {
+    est.compute(pts, nrm, curv, rel);
+  }
   // oracle covariance of the neighbourhood (two passes)
   double mean[3] = {0, 0, 0}, C[3][3];
   for (int i = 0; i < k; ++i) {
@@ -69,6 +76,18 @@ static void normals()
     }
     trace += C[a][a];
   }
+  // cut point: the oracle covariance becomes fresh variables (shared with the matrix the code hands to the eigen-solver when
+  // both are the same polynomial); facts about it that need its definition are proved once as lemmas
+  for (int a = 0; a < D; ++a) {vf_cut(&C[a][0], D, "cov");}
+  trace = 0;
+  for (int a = 0; a < D; ++a) {trace += C[a][a];}
+  for (int a = 0; a < D; ++a) {
+    vf_lemma(C[a][a] >= 0, "oracle-covariance-diagonal-nonnegative");
+    for (int b = a + 1; b < D; ++b) {
+      vf_lemma(vf_eq(C[a][b], C[b][a]), "oracle-covariance-symmetric");
+      vf_lemma(C[a][a] * C[b][b] - C[a][b] * C[a][b] >= 0, "oracle-covariance-2x2-minor-nonnegative");
+    }
+  }
   vf_assume(trace >= 1e-6);      // not a single repeated point
   const int q = (int)vf_param("point");
   double nv[3], norm2 = 0, facing = 0;
@@ -80,12 +99,21 @@ static void normals()
   vf_check(vf_eq(norm2, 1.0), "normal-has-unit-length");
   vf_check(facing <= 0, "normal-points-toward-the-sensor-origin");
   // direction of least variance of the neighbours: C n = l_min n with l_min = curvature * trace, l_min the smallest eigenvalue
-  const double lmin = curv[q] * trace;
+  double lmin = curv[q] * trace;
+  if (overload == 1) {
+    // no curvature output: the Rayleigh quotient of the returned normal stands for the eigenvalue
+    lmin = 0;
+    for (int a = 0; a < D; ++a) {
+      for (int b = 0; b < D; ++b) {lmin += nv[a] * C[a][b] * nv[b];}
+    }
+    curv[q] = lmin / trace;
+  }
   for (int a = 0; a < D; ++a) {
     double cn = 0;
     for (int b = 0; b < D; ++b) {cn += C[a][b] * nv[b];}
-    vf_check(vf_eq(cn, lmin * nv[a]), "normal-is-an-eigenvector-of-the-neighbourhood-covariance");
+    vf_lemma(vf_eq(cn, lmin * nv[a]), "normal-is-an-eigenvector-of-the-neighbourhood-covariance");
   }
+  vf_lemma((curv[q] >= -1e-12) & (curv[q] <= 1.0 / D + 1e-12), "curvature-in-[0,1/DIM]");
   // least variance: for any unit direction u, u^T C u >= l_min
   double u[3], uu = 0, uCu = 0;
   static const char * UN[3] = {"u0", "u1", "u2"};
@@ -94,8 +122,27 @@ static void normals()
   for (int a = 0; a < D; ++a) {
     for (int b = 0; b < D; ++b) {uCu += u[a] * C[a][b] * u[b];}
   }
+  if (D == 2) {
+    // helping lemmas (each proved, then assumed): the tangent is the other eigenvector, so the quadratic form is diagonal in
+    // the (normal, tangent) basis.  The coordinates, both eigenvalues and the quadratic form are then cut (fresh variables,
+    // definitions aside) so that the last step is a six-variable query
+    const double t0 = -nv[1], t1 = nv[0];
+    double l1 = trace - lmin;
+    vf_lemma(vf_near(C[0][0] * t0 + C[0][1] * t1, l1 * t0, 1e-7) & vf_near(C[1][0] * t0 + C[1][1] * t1, l1 * t1, 1e-7), "tangent-is-the-other-eigenvector");
+    double ca = u[0] * nv[0] + u[1] * nv[1], cb = u[0] * t0 + u[1] * t1;
+    vf_lemma(vf_near(uCu, ca * ca * lmin + cb * cb * l1, 1e-7), "quadratic-form-in-the-eigenbasis");
+    vf_cut(&ca, 1, "ca"); vf_cut(&cb, 1, "cb"); vf_cut(&l1, 1, "l1"); vf_cut(&lmin, 1, "lmin"); vf_cut(&uCu, 1, "uCu"); vf_cut(&trace, 1, "trace");
+    vf_lemma(vf_near(ca * ca + cb * cb, 1.0, 1e-7), "unit-direction-in-the-eigenbasis");
+    vf_lemma(vf_near(uCu, ca * ca * lmin + cb * cb * l1, 1e-7), "quadratic-form-in-the-eigenbasis");
+    double cq = curv[q];
+    vf_cut(&cq, 1, "curv");
+    vf_lemma(vf_near(lmin, cq * trace, 1e-9), "cut-lmin-is-curvature-times-trace");
+    vf_lemma(cq <= 0.5 + 1e-12, "cut-curvature-bound");
+    vf_lemma(vf_near(l1, trace - lmin, 1e-9), "cut-l1-is-trace-minus-lmin");
+    vf_lemma(trace >= 0, "trace-nonnegative");
+    vf_lemma(l1 >= lmin - 1e-11 * (1 + trace), "other-eigenvalue-is-not-smaller");
+  }
   vf_check(uCu >= lmin - 1e-9 * (1 + trace), "normal-is-the-direction-of-least-variance");
-  vf_check((curv[q] >= -1e-12) & (curv[q] <= 1.0 / D + 1e-12), "curvature-in-[0,1/DIM]");
   if (planar) {
     vf_check(vf_near(curv[q], 0.0, 1e-9), "planar-cloud-has-zero-curvature");
     double cross = 0;
